@@ -16,6 +16,8 @@ class Base:
         self.loads[idx] += 1
         if self.payload == "tuple":
             return (idx, [idx] * 2, {"k": str(idx)})
+        if self.payload == "none-mixed":
+            return None if idx % 2 == 0 else (idx, 0, "")
         return idx * 1.5
 
 
@@ -81,6 +83,25 @@ def check_hostile(n, history):
     return None
 
 
+def check_wrapped_transform_attr():
+    from kappadata.caching.shared_dict_dataset import SharedDictDataset
+
+    class WithTransform(Base):
+        def __init__(self, n):
+            super().__init__(n, "float")
+            self.transform = lambda v: v + 100
+
+        def __getitem__(self, idx):
+            return self.transform(super().__getitem__(idx))
+    base = WithTransform(3)
+    ds = SharedDictDataset(base)
+    for i in (0, 1, 0):
+        if ds[i] != WithTransform(3)[i]:
+            return {"what": "cache without a transform differs from the dataset it wraps", "idx": i, "observed": ds[i],
+                    "expected": WithTransform(3)[i]}
+    return None
+
+
 def _reader(ds, idxs, q):
     try:
         q.put([ds[i] for i in idxs])
@@ -111,7 +132,7 @@ def check_processes(n, readers, seed):
 def search(limit, seed, processes=True):
     rng = random.Random(seed)
     n_eval = 0
-    for n, tf, payload in itertools.product((1, 3), (False, True), ("tuple", "float")):
+    for n, tf, payload in itertools.product((1, 3), (False, True), ("tuple", "float", "none-mixed")):
         for _ in range(max(1, limit // 8)):
             hist = [rng.choice(list(range(n)) + ["clear"]) for _ in range(rng.randint(1, 8))]
             n_eval += 1
@@ -125,6 +146,11 @@ def search(limit, seed, processes=True):
         if r is not None:
             r["input"] = {"n": 3, "history": hist, "schedule": "clear() by another process right after `idx in shared_dict` answered True"}
             return r, n_eval
+    n_eval += 1
+    r = check_wrapped_transform_attr()
+    if r is not None:
+        r["input"] = {"scenario": "cache without transform around a dataset that has its own .transform attribute"}
+        return r, n_eval
     if processes:
         for readers in (1, 2, 3):
             n_eval += 1
